@@ -1,5 +1,5 @@
-(* Model of vnacal_load.c (control logic) over an abstract YAML node tree, and of the emitter of
-   vnacal_save.c (add_error_parameters) driven by the same layout.  Model only: no proofs here.
+(* Model of vnacal_load.c (control logic) over an abstract YAML node tree.  The model of the saver
+   vnacal_save.c is CalFile/CalSaveModel.v.  Model only: no proofs here.
 
    Oracles (outputs of libyaml / libc, computed by the trusted glue and attached to the tree):
      * the node tree itself (kind, scalar text cut at the first NUL, recursive aliases shown as NCYC);
@@ -327,8 +327,10 @@ Fixpoint props_ok (n : node) : res unit :=
   end.
 
 (* ---------------------------------------------------------------- parse_set *)
+(* c_props: the YAML sub-tree handed to the property importer (parse_properties), kept as it is:
+   the import itself is property C14; None = no "properties" key in the calibration *)
 Record cal := { c_name : string; c_type : ctype; c_rows : Z; c_cols : Z; c_freqs : Z;
-                c_z0 : option string; c_data : list (xfreq * cells) }.
+                c_z0 : option string; c_props : option node; c_data : list (xfreq * cells) }.
 
 Record setacc := { a_name : option string; a_ty : option ctype; a_rows : Z; a_colsn : Z; a_fr : Z;
                    a_z0 : option string; a_props : option node; a_data : option node }.
@@ -369,6 +371,12 @@ Fixpoint scan_set (pairs : list (node * node)) (a : setacc) : res setacc :=
 
 Definition int_max : Z := 2147483647.
 Definition dims_fit (t : ctype) (rows cols : Z) : bool := if is_t t then rows <=? cols else cols <=? rows.
+(* smallest number of rows / columns parse_set accepts.  As coded: 0 (only negative values, i.e. missing
+   fields, are rejected; with 0 the test below is dead).  Finding DC1: "columns: 0" with UE14 / E12 makes
+   parse_matrices declare a variable length array with bound 0; the proposed repair
+   fixes/DC1_load_zero_dimensions.diff rejects dimensions below 1 - when it is applied this constant
+   becomes 1 and nothing else changes. *)
+Definition min_dim : Z := 0.
 
 Definition parse_set (ver : Z) (n : node) : res cal :=
   match n with
@@ -388,7 +396,7 @@ Definition parse_set (ver : Z) (n : node) : res cal :=
               match ty with
               | None => Err EBadMsg
               | Some t =>
-                  if negb (dims_fit t (a_rows a) (a_colsn a)) then Err EBadMsg else
+                  if (a_rows a <? min_dim) || (a_colsn a <? min_dim) || negb (dims_fit t (a_rows a) (a_colsn a)) then Err EBadMsg else
                   let p := Z.max (a_rows a) (a_colsn a) in
                   if int_max / 4 <? p * p then Err EBadMsg else
                   let ly := mk_layout t (a_rows a) (a_colsn a) in
@@ -397,7 +405,7 @@ Definition parse_set (ver : Z) (n : node) : res cal :=
                   | Ok _ =>
                       match parse_data ver ly (a_fr a) data with
                       | Err e => Err e
-                      | Ok d => Ok (Build_cal name t (a_rows a) (a_colsn a) (a_fr a) (a_z0 a) d)
+                      | Ok d => Ok (Build_cal name t (a_rows a) (a_colsn a) (a_fr a) (a_z0 a) (a_props a) d)
                       end
                   end
               end
@@ -438,6 +446,15 @@ Fixpoint parse_document (ver : Z) (pairs : list (node * node)) (acc : list cal) 
   | (_, _) :: r => parse_document ver r acc
   end.
 
+(* the sub-trees imported into vc_properties, in document order (every "properties" key of the top
+   level is imported; the import itself is property C14) *)
+Fixpoint doc_gprops (pairs : list (node * node)) : list node :=
+  match pairs with
+  | [] => []
+  | (NS k, v) :: r => if String.eqb (s_text k) "properties" then v :: doc_gprops r else doc_gprops r
+  | (_, _) :: r => doc_gprops r
+  end.
+
 (* the version line: result of the two sscanf calls *)
 Inductive vline := VBad | VNew (major minor : Z) | VOld (major minor : Z).
 Definition version_of (v : vline) : res Z :=
@@ -474,38 +491,13 @@ Definition wf_cells (c : cal) : bool :=
   forallb (fun fc => cells_defined (l_terms (mk_layout (c_type c) (c_rows c) (c_cols c))) (snd fc)) (c_data c).
 Definition wf_cal (c : cal) : bool := wf_shape c && wf_cells c.
 
-(* ---------------------------------------------------------------- emitter (add_error_parameters) *)
-(* the YAML nodes written for one frequency from the term vector; scalars carry the term as text *)
-Definition term_scalar (t : string) : node :=
-  NS (Build_scalar t None RBad true None false).
+(* ---------------------------------------------------------------- scalars written by literal text *)
+(* a mapping key / the '~' of a diagonal: yaml_document_add_scalar of a string literal.  The loader
+   reads only s_text of these (and s_keyok inside property trees). *)
 Definition null_scalar : node := NS (Build_scalar "~" None RBad false None false).
-Definition nth_term (c : list string) (i : Z) : string := nth (Z.to_nat i) c ""%string.
-
-Definition zseq (n : Z) : list Z := map Z.of_nat (seq 0 (Z.to_nat n)).
-
-Definition emit_vector (d : dest) (len : Z) (c : list string) : node :=
-  NQ (map (fun k => term_scalar (nth_term c (dst d k))) (zseq len)).
-(* cell counter of position (row, col) in a matrix without diagonal *)
-Definition nd_index (cols row col : Z) : Z :=
-  row * cols + col - (if row <? cols then (if col <? row then row else row + 1) else cols).
-Definition emit_matrix (d : dest) (rows cols : Z) (nodiag : bool) (c : list string) : node :=
-  NQ (map (fun row =>
-             NQ (map (fun col =>
-                        if nodiag && (row =? col) then null_scalar
-                        else term_scalar (nth_term c (dst d (if nodiag then nd_index cols row col else row * cols + col))))
-                     (zseq cols)))
-          (zseq rows)).
+Definition key_scalar (k : string) : node := NS (Build_scalar k None RBad false None true).
 Definition mid_key (i : mid) : string :=
   match i with
   | ME => "e" | MEL => "el" | MER => "er" | MEM => "em" | MTS => "ts" | MTI => "ti" | MTX => "tx" | MTM => "tm"
   | MUM => "um" | MUI => "ui" | MUX => "ux" | MUS => "us"
   end.
-Definition key_scalar (k : string) : node := NS (Build_scalar k None RBad false None true).
-(* vnacal_save writes version 1.0: the steps of the loader with ver = 1 are also the emitter's *)
-Definition emit_entry (ly : layout) (fnode : node) (c : list string) : node :=
-  NM ((key_scalar "f", fnode) ::
-      map (fun st => match st with
-                     | PVec i d len => (key_scalar (mid_key i), emit_vector d len c)
-                     | PMat i d rows cols nd => (key_scalar (mid_key i), emit_matrix d rows cols nd c)
-                     | POld => (key_scalar "e", NQ [])
-                     end) (psteps 1 ly)).
